@@ -55,7 +55,7 @@ def shards(tier):
 
 def floors(tier):
     f = {"cases": 15000, "cases_with_errors": 4000, "arrangements": 3000, "chains": 300, "inner_store_refs": 100,
-         "siblings_next_to_ref": 300, "hostile_name_resolutions": 2000, "recursive_cases": 1000, "recursive_with_asserting_siblings": 300, "near_identical_url_cases": 2000, "same_string_chain_cases": 800, "retrieval_uri_cases": 400, "id_collision_cases": 300, "reused_after_failed_retrieval": 500, "local_reference_arrangements_through_cli": 150,
+         "siblings_next_to_ref": 300, "hostile_name_resolutions": 2000, "recursive_cases": 1000, "recursive_with_asserting_siblings": 300, "near_identical_url_cases": 2000, "same_string_chain_cases": 800, "cases_with_a_resolver_that_keeps_nothing": 3000, "retrieval_uri_cases": 400, "id_collision_cases": 300, "reused_after_failed_retrieval": 500, "local_reference_arrangements_through_cli": 150,
          "recursion_depth3plus": 200, "model_crosschecks": 2000, "max_scope_depth": 3, "transform_selfcheck_ok": 3000, "foreign_id_keywords_on_path": 500, "relative_id_in_store_doc": 200, "reused_after_validate": 5000,
          "uri_calibration": 60}
     for m in ("noid", "rootid", "rootid#", "nested"):
@@ -65,20 +65,20 @@ def floors(tier):
     return f
 
 
-def make_resolver(d, S, store, handler_docs, retrieved_from=None):
+def make_resolver(d, S, store, handler_docs, retrieved_from=None, **kw):
     def handler(url):
         doc_url = url.split("#")[0]
         return handler_docs[doc_url]
     if retrieved_from is not None:
         # the caller says where the document came from (what the CLI's --base-uri does); the root's own id is applied
         # on top of that by the validator
-        return RefResolver(retrieved_from, S, store=dict(store), handlers={"vf": handler})
-    return RefResolver.from_schema(S, id_of=impl.CLS[d].ID_OF, store=dict(store), handlers={"vf": handler})
+        return RefResolver(retrieved_from, S, store=dict(store), handlers={"vf": handler}, **kw)
+    return RefResolver.from_schema(S, id_of=impl.CLS[d].ID_OF, store=dict(store), handlers={"vf": handler}, **kw)
 
 
-def run_S(d, S, store, handler_docs, inst, retrieved_from=None):
+def run_S(d, S, store, handler_docs, inst, retrieved_from=None, **kw):
     cls = impl.CLS[d]
-    resolver = make_resolver(d, S, store, handler_docs, retrieved_from)
+    resolver = make_resolver(d, S, store, handler_docs, retrieved_from, **kw)
     try:
         errs = list(cls(S, resolver=resolver).iter_errors(inst))
         return "ok", locs(errs), resolver
@@ -109,6 +109,14 @@ def compare(ctx, d, S, S0, store, handler_docs, inst, info, mech=None, model=Tru
         return
     if len(resolver._scopes_stack) != 1:
         ctx.count("scope_not_restored_delegated_to_C07")
+    if handler_docs and ctx.counters.get("cases", 0) % 2 == 0:
+        # a resolver told not to keep what it retrieves (cache_remote=False) designates the same schemas
+        st2, l2, _ = run_S(d, S, store, handler_docs, inst, retrieved_from=info.get("retrieved_from"), cache_remote=False)
+        ctx.count("cases_with_a_resolver_that_keeps_nothing")
+        if st2 != "ok" or l2 != l0:
+            ctx.violation("locations-differ" if st2 == "ok" else "resolvable-reference-failed", dict(case, cache_remote=False),
+                          "with cache_remote=False: %s %r; inlined %r" % (st2, (l2 or [])[:3], l0[:3]), mech=mech)
+            return
     # transparency also holds on a validator that has been used before: after validate() raised (the exception
     # still referenced) and after is_valid(), the same validator must give the same locations again
     if l0 and info.get("refs"):
